@@ -87,9 +87,15 @@ def lean_obligations(prop):
         for k in GEN_KERNELS.get(prop, []):
             if k in gen_err:
                 res["failed"].append("translator (tools/rs2lean.py) rejected the current source of kernel %s: %s" % (k, gen_err[k]))
-        rc, out = sh(["lake", "build", "DryocVerif.Properties." + prop, "dryoc_model"], cwd=LEAN, timeout=3000)
+        # the model driver first (it imports only Model/Spec files): its answers stay available when a proof no longer checks
+        rc_d, out_d = sh(["lake", "build", "dryoc_model"], cwd=LEAN, timeout=3000)
+        res["build_ok"] = rc_d == 0
+        if rc_d != 0:
+            res["log"] = out_d[-4000:]
+            res["failed"] += sorted(set(re.findall(r"error: ([^\n]*)", out_d)))[:20] or ["lake build dryoc_model failed"]
+            return res
+        rc, out = sh(["lake", "build", "DryocVerif.Properties." + prop], cwd=LEAN, timeout=3000)
         res["log"] = out[-4000:]
-        res["build_ok"] = rc == 0
         if rc != 0:
             # which theorem(s) broke: look for error lines
             res["failed"] += sorted(set(re.findall(r"error: ([^\n]*)", out)))[:20] or ["lake build failed"]
